@@ -122,7 +122,7 @@ impl SwiftField for Field61 {
         }
 
         let amount_str = &input[amount_start..pos];
-        if amount_str.len() > 15 {
+        if super::swift_utils::amount_text_len(amount_str) > 15 {
             return Err(ParseError::InvalidFormat {
                 message: format!(
                     "Field 61 amount must not exceed 15 characters, found {}",
